@@ -513,6 +513,41 @@ fn run_cli_inner(c: &CliCase, _st: &mut RunStats) -> Verdict {
             Err(e) => return viol("schema", format!("autosql(): {}", e)),
         };
         let fc = bb.info().header.field_count;
+        // the same two facts through a reader whose reads are short and interrupted (F3/F4): nothing may change
+        {
+            let bytes = match std::fs::read(&big) {
+                Ok(b) => b,
+                Err(e) => return Verdict::Skip(format!("HARNESS: cannot read {}: {}", big.display(), e)),
+            };
+            let rf = ReadFaults {
+                short_pm: 600,
+                eintr_pm: 200,
+                seed: crate::rng::hash_bytes(stored.as_bytes()) ^ c.nthreads as u64,
+                ..ReadFaults::default()
+            };
+            match BigBedRead::open(crate::sink::SimRead::new(Arc::new(bytes), &rf)) {
+                Ok(mut b2) => {
+                    let fc2 = b2.info().header.field_count;
+                    match b2.autosql() {
+                        Ok(Some(s2)) if s2 == stored && fc2 == fc => {}
+                        Ok(other) => {
+                            return viol(
+                                "schema",
+                                format!(
+                                    "through a reader with short and interrupted reads the stored schema reads as {:?} (field count {}), through a file as {:?} (field count {})",
+                                    other.map(|s| s.chars().take(80).collect::<String>()),
+                                    fc2,
+                                    stored.chars().take(80).collect::<String>(),
+                                    fc
+                                ),
+                            )
+                        }
+                        Err(e) => return viol("schema", format!("autosql() through a reader with short and interrupted reads: {}", e)),
+                    }
+                }
+                Err(e) => return viol("schema", format!("open through a reader with short and interrupted reads: {}", e)),
+            }
+        }
         match &c.autosql {
             Some(supplied) => {
                 if stored != *supplied {
@@ -761,6 +796,8 @@ pub struct ConvCase {
     /// opening (counted over all reopened per-task readers) fails once
     #[serde(default)]
     pub hard: Option<u32>,
+    #[serde(default)]
+    pub hard_kind: u8,
 }
 
 pub fn gen_conv(rng: &mut Rng) -> ConvCase {
@@ -786,9 +823,11 @@ pub fn gen_conv(rng: &mut Rng) -> ConvCase {
             seed: rng.next_u64(),
         },
         hard: None,
+        hard_kind: 0,
     };
     if rng.chance(1, 5) {
         cc.hard = Some(rng.below(60) as u32);
+        cc.hard_kind = rng.below(4) as u8;
     }
     cc
 }
@@ -871,7 +910,11 @@ pub fn run_conv(cc: &ConvCase) -> RunReport {
     let res = std::panic::catch_unwind(std::panic::AssertUnwindSafe(|| -> Result<(), String> {
         if let Some(n) = cc.hard {
             // the same conversion with the file behind SimRead and one hard read/seek error after opening
-            let rd = crate::sink::SimRead::new(Arc::new(out.image.clone()), &ReadFaults::default());
+            let rf = ReadFaults {
+                hard_kind: cc.hard_kind,
+                ..ReadFaults::default()
+            };
+            let rd = crate::sink::SimRead::new(Arc::new(out.image.clone()), &rf);
             let stats = rd.stats.clone();
             *sim_stats.borrow_mut() = Some(stats.clone());
             let arm = move || stats.lock().unwrap_or_else(|e| e.into_inner()).arm = Some(n as u64);
@@ -1662,7 +1705,11 @@ fn merge_with_failing_input(c: &MergeCase, images: &[Vec<u8>], outp: &Path, whic
     let mut readers = vec![];
     let mut stats = vec![];
     for img in images {
-        let rd = crate::sink::SimRead::new(Arc::new(img.clone()), &ReadFaults::default());
+        let rf = ReadFaults {
+            hard_kind: (nth % 4) as u8,
+            ..ReadFaults::default()
+        };
+        let rd = crate::sink::SimRead::new(Arc::new(img.clone()), &rf);
         stats.push(rd.stats.clone());
         match BigWigRead::open(rd) {
             Ok(r) => readers.push(r),
@@ -1860,6 +1907,7 @@ pub fn gen_avg(rng: &mut Rng) -> AvgCase {
                 eintr_pm: 100,
                 seed: rng.next_u64(),
                 hard: None,
+                hard_kind: 0,
             }
         } else {
             ReadFaults::default()
@@ -1867,6 +1915,7 @@ pub fn gen_avg(rng: &mut Rng) -> AvgCase {
     };
     if ac.mode == "lib" && rng.chance(1, 3) {
         ac.read.hard = Some((0, rng.below(40) as u32));
+        ac.read.hard_kind = rng.below(4) as u8;
     }
     ac
 }
